@@ -170,6 +170,7 @@ def check(report, tier, only=None):
     obs = [('stream_errors', ob_handle_confines_errors), ('accept_loop', ob_accept_loop),
            ('preamble_reader_mir', C07_e2.ob_preamble_reader),
            ('read_request', lambda rep: C07_e2.ob_read(rep, 'request')),
+           ('read_request_dbg', lambda rep: C07_e2.ob_read_total_dbg(rep, 'request')),
            ('dispatch', C16.ob_call),
            ('not_found', lambda rep: ob_no_panic(rep, 'not_found_total', 'NotFound fallback on an arbitrary route string', lambda ex: find_method(ex.prog, 'NotFound', 'call', trait='Service'))),
            ('inbound_timeout', lambda rep: ob_no_panic(rep, 'inbound_timeout_total', 'inbound Timeout::call on an arbitrary `timeout` header', lambda ex: find_method(ex.prog, 'Timeout', 'call', trait='Service', file_re=r'timeout/inbound\.rs'),
@@ -181,7 +182,13 @@ def check(report, tier, only=None):
            ('request_failure_confined', lambda rep: __import__('props.C12', fromlist=['x']).ob_handle_no_connection_ops(rep, PROP)),
            # the header frame is decoded by the derived serde impls of the raw header structs (no hand-written visitor sized by attacker-chosen counts)
            ('raw_header_fields', C07_e2.ob_serde_fields),
-           ('removal_entry_points', lambda rep: __import__('props.C04', fromlist=['x']).ob_removal_entry_points(rep))]
+           ('removal_entry_points', lambda rep: __import__('props.C04', fromlist=['x']).ob_removal_entry_points(rep)),
+           # the reply path cannot panic on what a request made the service return: the header is serialized with the infallible default options and
+           # an oversized frame is the frame codec's error on that stream
+           ('write_response', lambda rep: C07_e2.ob_write(rep, 'response')),
+           # the bundled per-peer limiter (anemo-tower) in front of a service: a peer that keeps requests queued must not be able to block executor threads
+           # (no reference into the shared DashMap - a shard lock - is held across a suspension point)
+           ('inflight_limiter', lambda rep: __import__('props.C18', fromlist=['x']).ob_call(rep))]
     for n, f in obs:
         if only and not any(s in n for s in only):
             continue
